@@ -6,6 +6,19 @@ cd "$(dirname "$0")/sim"
 export GOFLAGS=-mod=mod GOPROXY=off GOSUMDB=off GOTOOLCHAIN=local GOWORK=off
 mkdir -p ../bin
 go build -tags verif -o ../bin/verifsim ./cmd/verifsim
+if [ "${1:-}" = "C09" ] || [ "${1:-}" = "all" ]; then
+  # C09 worker: built against a scratch copy of /repo in which a yield point precedes every
+  # statement of the validator path (tools/yieldins). The copy is removed again.
+  COPY=$(mktemp -d /tmp/verifsim-c09-XXXXXX)
+  trap 'rm -rf "$COPY"' EXIT
+  rsync -a --exclude .git /repo/ "$COPY/"
+  go build -o ../bin/yieldins ./tools/yieldins
+  ../bin/yieldins "$COPY" verify/verify.go gcetcbendorsement/sevvalidate.go gcetcbendorsement/sevpolicy.go gcetcbendorsement/tdxvalidate.go gcetcbendorsement/tdxpolicy.go >/dev/null
+  sed "s#=> /repo#=> $COPY#" go.mod > "$COPY/harness.mod"
+  cp go.sum "$COPY/harness.sum"
+  go build -modfile="$COPY/harness.mod" -tags "verif verifyield" -o ../bin/verifsim-c09 ./cmd/verifsim
+  rm -rf "$COPY"; trap - EXIT
+fi
 if [ "${1:-}" = "C20" ] || [ "${1:-}" = "all" ]; then
   if [ -d worldk ]; then
     go1.26.8 test -tags verif -c -o ../bin/worldk.test ./worldk
